@@ -68,3 +68,16 @@ impl LuaIndex for JsonSchemaIndex {
         // TODO clear all schema index
     }
 }
+
+/// Entry counts of every map of this index (verification hook, add-only, off by default).
+#[cfg(feature = "verif")]
+impl JsonSchemaIndex {
+    pub fn verif_sizes(&self) -> Vec<(String, usize)> {
+        let p = "schema";
+        let mut v: Vec<(String, usize)> = Vec::new();
+        let mut put = |name: &str, n: usize| v.push((format!("{p}.{name}"), n));
+        put("schema_files", self.schema_files.len());
+
+        v
+    }
+}
